@@ -382,7 +382,7 @@ var MutationKinds = []string{
 	"proof-outsider-preparer", "proof-preparer-sig", "proof-below-quorum", "proof-inst", "proof-height", "proof-types", "proof-add",
 	"votes-drop", "votes-dup", "votes-unsigned", "votes-resigned-by-other", "votes-outsider", "votes-view", "votes-height", "votes-inst", "votes-type",
 	"nvpp-view", "nvpp-height", "nvpp-hash", "nvpp-signer", "nvpp-sig", "nvpp-type", "nvpp-inst", "nv-other-block", "nv-invalid-block", "nv-ignore-lock",
-	"nv-lower-proof-block", "nv-lower-proof-block", "votes-reverse",
+	"nv-lower-proof-block", "nv-lower-proof-block", "votes-reverse", "proof-pp-view", "proof-pp-view",
 }
 
 func otherType(t uint16, a int) uint16 {
@@ -661,6 +661,29 @@ func (r *NRun) mutate(sp *MsgSpec, mu Mutation) bool {
 			if mu.Resign {
 				r.resignProof(p)
 			}
+		case "proof-pp-view": // the PREPREPARE reference claims another (later or earlier) view than the PREPAREs were given in,
+			// signed by that other view's leader: the proof would rank by a view nobody prepared in
+			nv := p.PP.V + 1 + uint64(mu.A%3)
+			if mu.A%4 == 3 && p.PP.V > 0 {
+				nv = p.PP.V - 1
+			}
+			if nv >= vote.V {
+				return false
+			}
+			li := w.LeaderIdx(vote.H, nv)
+			if !a.owns(li) {
+				return false
+			}
+			p.PP.V = nv
+			p.PPSender = a.signedRef(li, p.PP)
+			// the claimed view's leader must not appear among the preparers (it would be rejected for that reason alone)
+			var keep []SigSpec
+			for _, ps := range p.PSenders {
+				if !primitives.MemberId(ps.ID).Equal(w.IDs[li]) {
+					keep = append(keep, ps)
+				}
+			}
+			p.PSenders = keep
 		case "proof-hash":
 			p.P.Hash = r.freshBlock("ph").Hash()
 			if mu.Resign {
